@@ -1,7 +1,7 @@
 (* C19 — implementation model: transcription of iolib.go's lFile (one os.File descriptor, an
    optional 4096-byte bufio.Reader, the writer being the descriptor itself or a bufio.Writer) and of
    the pieces of bufio/fmt it relies on (Reader.Read/ReadByte/ReadSlice/ReadLine/fill, io.ReadAll,
-   Writer.Write/Flush, fmt.Fscan's float token on the decimal fragment), utils.go readBufioSize /
+   Writer.Write/Flush), iolib.go readNumber (the decimal numeral of C's %lf), utils.go readBufioSize /
    readBufioLine.  State of the tree modelled: after the C19 fix commits (see notes/C19.md).
 
    [ch tick req avail] is the chunking oracle: how many bytes one read(2) of [req] bytes returns when
@@ -169,7 +169,8 @@ Fixpoint sspan (fuel : nat) (p : Z -> bool) (disk : bytes) (h : ihandle) (acc : 
 
 Definition opt_unsup (c : option Z) : bool := match c with Some b => num_unsup b | None => false end.
 
-(* fmt.Fscan(reader, &v) for a float: SkipSpace, notEOF, floatToken, ParseFloat *)
+(* readNumber: white space, sign, digits, '.', digits; every look at the next byte is a ReadByte
+   (undone at the end), which fills an empty buffer *)
 Definition scanNum (disk : bytes) (h : ihandle) : option (ihandle * numres) :=
   let fuel := S (length (rbuf h) + length disk) in
   match sspan fuel is_space disk h [] with
@@ -234,7 +235,7 @@ Definition iread1 (disk : bytes) (h : ihandle) (f : rfmt) : ihandle * rd1 :=
     match scanNum disk h with
     | None => (h, RdFuel)
     | Some (h', NEof _) => (h', RdV VNil)
-    | Some (h', NBad _) => (h', RdErr)
+    | Some (h', NBad _) => (h', RdV VNil)        (* no numeral: a plain nil *)
     | Some (h', NOk _ v k) => (h', RdV (VNum v k))
     | Some (h', NUnsup) => (h', RdUnsup)
     end
@@ -344,10 +345,10 @@ Definition istep (disk : bytes) (h : ihandle) (o : op) : bytes * ihandle * res :
     let np := seek_target w off (ofs h2) (len d1) in
     if np <? 0 then (d1, h2, RFail) else (d1, upd_r h2 np (rbuf h2) (tick h2), ROff np)
   | OFlush =>
-    if negb (i_wr h) then (disk, h, RFail) else
+    if negb (i_wr h) then (disk, h, RTrue) else
     let (d1, h1) := iflush disk h in (d1, h1, RTrue)
   | OSetvbuf m size =>
-    if negb (i_wr h) then (disk, h, RFail) else
+    if negb (i_wr h) then (disk, h, RTrue) else
     let (d1, h1) := iflush disk h in
     (d1, upd_w h1 (ofs h1) (match m with VNo => None | _ => Some ([], vcap size) end), RTrue)
   | OClose =>
